@@ -347,7 +347,10 @@ SEEDS = [
     Seed("read-string-no-advance", "fault", "parser", "        r.append(c)\n        i += 1\n    return i, \"\".join(r)", "        r.append(c)\n        if c != '\\\\':\n            i += 1\n    return i, \"\".join(r)", rule="C12-R1"),
     Seed("kg-read-delimiter-not-consumed", "fault", "parser", "    if a in [';', '(', ')', '{', '}', ']']:\n        return i+1, a", "    if a in [';', '(', ')', '{', '}', ']']:\n        return (i if a == ']' else i+1), a", rule="C12-R2"),
     Seed("fn-args-index-dropped", "fault", "interpreter", "            if safe_eq(c, ';'):\n                i = ii\n                if k == i - 1:", "            if safe_eq(c, ';'):\n                if k == i - 1:", rule="C12-R3"),
-    Seed("expr-loop-cursor-dropped", "fault", "interpreter", "        while isinstance(aa,(KGOp,KGSym)) or safe_eq(aa, '{'):\n            i = ii\n", "        while isinstance(aa,(KGOp,KGSym)) or safe_eq(aa, '{'):\n            i = ii if not safe_eq(aa, '{') else i\n", rule="C12-R3"),
+    # (the former seed "expr-loop-cursor-dropped" - `i = ii if ... else i` - was only reported because conditional assignments were
+    #  not understood: with either polarity the loop still consumes input through cexpect / the recursive _expr; it is a refactor-neutral
+    #  variant as far as termination goes and is kept as such)
+    Seed("refactor-expr-loop-conditional-cursor", "refactor", "interpreter", "        while isinstance(aa,(KGOp,KGSym)) or safe_eq(aa, '{'):\n            i = ii\n", "        while isinstance(aa,(KGOp,KGSym)) or safe_eq(aa, '{'):\n            i = ii if ii >= i else i\n"),
     Seed("prog-discards-index", "fault", "interpreter", "            i, q = self._expr(t,i, ignore_newline=ignore_newline)\n            if q is None or safe_eq(q, ';'):\n                continue",
          "            j, q = self._expr(t,i, ignore_newline=ignore_newline)\n            if q is None or safe_eq(q, ';'):\n                continue\n            i = j", rule="C12-R3"),
     Seed("break-to-continue", "fault", "interpreter", "            if a is None:\n                break\n            arr.append(a)\n        i = cexpect(t,i,')')", "            if a is None:\n                continue\n            arr.append(a)\n        i = cexpect(t,i,')')", rule="C12-R3"),
